@@ -155,3 +155,22 @@ class Report:
             print("VIOLATION property=%s replay=%s" % (self.pid, replay))
             return 1
         return 0
+
+
+class Alias:
+    """forwards a rule set written for another property to this report under one rule id (shared rules)"""
+    def __init__(self, rep, rule, suffix=""):
+        self.rep, self.r, self.suffix = rep, rule, suffix
+        self.info = rep.info
+
+    def rule(self, rid, text):
+        pass
+
+    def ok(self, rid, key, sample=None):
+        self.rep.ok(self.r, key, sample=sample)
+
+    def bad(self, rid, key, msg, where=None, detail=None):
+        self.rep.bad(self.r, key, msg + self.suffix, where=where, detail=detail)
+
+    def floor(self, rid, *a):
+        self.rep.floor(self.r, *a)
